@@ -6,14 +6,18 @@ from gen import extract_facts
 generate_facts = extract_facts.generate
 
 ID = "C11"
-LEAN_MODULES = ["Econf.Props.C11", "Econf.Props.Tie", "Econf.Props.Leaf", "Econf.Props.LeafKf", "Econf.Props.LeafGetters"]
+LEAN_MODULES = ["Econf.Props.C11", "Econf.Props.Tie", "Econf.Props.Leaf", "Econf.Props.LeafKf", "Econf.Props.LeafGetters", "Econf.Props.LeafGetKeys"]
 THEOREMS = ["Econf.C11_set", "Econf.C11_get", "Econf.C11_keys", "Econf.C11_groups", "Econf.C11_refused", "Econf.C11_brackets",
             "Econf.C11_get_set_same", "Econf.C11_get_set_other", "Econf.C11_keys_set", "Econf.C11_default", "Econf.C11_step",
             "Econf.C11_refines", "Econf.C11_fresh", "Econf.Struct.tie_macros", "Econf.Struct.api_frames",
             "Leaf.C_stripbrackets", "Leaf.stripSpec_eq",
             "LeafKf.C_find_key", "LeafKf.find_key_exec", "LeafKf.fkCode_model", "LeafKf.find_key_shape", "LeafKf.getFromGroupList_exec", "LeafKf.C_first_entry",
             "LeafKf.econf_getGroups_shape", "LeafKf.C_econf_getGroups", "LeafKf.C_econf_getGroups_model", "LeafKf.C_econf_getGroups_nogroup",
-            "LeafKf.C_econf_getGroups_null_kf", "LeafKf.C_econf_getGroups_null_groups", "LeafKf.Example.run_getGroups"]
+            "LeafKf.C_econf_getGroups_null_kf", "LeafKf.C_econf_getGroups_null_groups", "LeafKf.Example.run_getGroups",
+            # econf_getKeys on its generated term: the two zeroing loops, the marking and the copying loop, the whole function, its exits, the model
+            "LeafKf.econf_getKeys_shape", "LeafKf.zero_bytes_loop", "LeafKf.zero_words_loop", "LeafKf.mark_loop", "LeafKf.copy_loop", "LeafKf.gk_prefix",
+            "LeafKf.C_econf_getKeys", "LeafKf.C_econf_getKeys_nokey", "LeafKf.C_econf_getKeys_null_kf", "LeafKf.getKeys_model",
+            "LeafKf.C_econf_getKeys_model", "LeafKf.C_econf_getKeys_nokey_model", "LeafKf.Example.run_getKeys", "LeafKf.Example.run_getKeys_nokey"]
 # string helpers translated from the C source on every run (gen/c2lean.py); theorems in lean/Econf/Props/Leaf.lean
 LEAF_FNS = ["stripbrackets", "find_key", "getFromGroupList", "getGroups", "getKeys"]
 RULE = ("random sequences of create/set/get/get-with-default/list operations (1..60, thorough ..300) over a small universe of sections "
